@@ -253,6 +253,156 @@ theorem explicit_notice_only (pre post : List Ev) (off : Nat)
     · exact ⟨k, [], by rw [h1]; simp, Or.inl rfl⟩
     · exact ⟨k, [.binaryMatches o], by rw [h1]; simp, Or.inr ⟨o, rfl⟩⟩
 
+/-! ### the second sentence of the property, at full strength — false on the current tree -/
+
+def Ev.isMatched : Ev → Bool
+  | .matched _ _ _ => true
+  | _ => false
+
+def Ev.isContext : Ev → Bool
+  | .context _ _ _ => true
+  | _ => false
+
+def Item.isMatchLine : Item → Bool
+  | .matchLine _ _ => true
+  | _ => false
+
+def Item.isLine : Item → Bool
+  | .matchLine _ _ => true
+  | .contextLine _ _ => true
+  | _ => false
+
+def Item.isNotice : Item → Bool
+  | .binaryMatches _ => true
+  | _ => false
+
+/-- Explicit file / `--binary`: "no notice and no match only if no line of it matches" —
+for the stream `evs` the searcher would deliver to a sink that never stops. -/
+def NoticeIfMatch (evs : List Ev) : Prop :=
+  (∃ e ∈ evs, e.isMatched = true) →
+    ∃ it ∈ stdRun .convert evs, it.isMatchLine = true ∨ it.isNotice = true
+
+/-- Traversed file, default mode: "cut off with a warning if lines were already printed". -/
+def WarnIfPrinted (pre : List Ev) (off : Nat) : Prop :=
+  (∃ it ∈ stdRun .quit (pre ++ [.binaryData off]), it.isLine = true) →
+    (stdRun .quit (pre ++ [.binaryData off])).getLast? = some (.stoppedWarning off)
+
+/-- The second sentence of C14 for every event stream. -/
+def C14_full : Prop := (∀ evs, NoticeIfMatch evs) ∧ (∀ pre off, WarnIfPrinted pre off)
+
+/-- It fails twice on the unchanged tree: a context line delivered before the first match (`-B`,
+`-C`, `--passthru`) makes the printer stop in `Convert` mode with a match count of 0, so neither a
+match nor the notice is written (`rg -B2 x f` prints nothing, exit 1, where `rg x f` prints
+"binary file matches"); and in `Quit` mode the warning depends on the match count, not on what
+was printed (`--passthru`: lines printed, then silence). -/
+theorem C14_full_fails : ¬ C14_full := by
+  intro h
+  have h1 := h.1 [.binaryData 4, .context 0 1 [97, 98, 97, 10], .matched 5 3 [98, 32, 120, 10]]
+  have : ¬ NoticeIfMatch [.binaryData 4, .context 0 1 [97, 98, 97, 10], .matched 5 3 [98, 32, 120, 10]] := by
+    unfold NoticeIfMatch
+    intro hh
+    have := hh ⟨.matched 5 3 [98, 32, 120, 10], by simp, rfl⟩
+    revert this
+    decide
+  exact this h1
+
+/-- Guards of the partial statement: no context line is ever delivered (no `-A/-B/-C/--passthru`);
+resp. whenever a line was delivered before the detection, a matching line was. -/
+def NoContext (evs : List Ev) : Bool := evs.all (fun e => !e.isContext)
+def MatchIfLine (pre : List Ev) : Bool :=
+  !(pre.any (fun e => e.isMatched || e.isContext)) || pre.any (fun e => e.isMatched)
+
+theorem feed_quit_matchCount (pre : List Ev) : ∀ st : St,
+    (feed .quit st pre).matchCount = st.matchCount + (pre.filter Ev.isMatched).length ∧
+    (feed .quit st pre).binOff = (match (pre.filter Ev.isBinaryData).getLast? with
+      | some (.binaryData o) => some o | _ => st.binOff) := by
+  induction pre with
+  | nil => intro st; simp [feed]
+  | cons ev pre ih =>
+    intro st
+    cases ev with
+    | matched o ln bs =>
+      simp only [feed, step]
+      obtain ⟨h1, h2⟩ := ih { st with matchCount := st.matchCount + 1, out := st.out ++ [.matchLine ln bs] }
+      have e1 : (Ev.matched o ln bs :: pre).filter Ev.isMatched = Ev.matched o ln bs :: pre.filter Ev.isMatched := by
+        simp [List.filter_cons, Ev.isMatched]
+      have e2 : (Ev.matched o ln bs :: pre).filter Ev.isBinaryData = pre.filter Ev.isBinaryData := by
+        simp [List.filter_cons, Ev.isBinaryData]
+      simp only [show (Det.quit == Det.convert) = false by decide, Bool.false_and, Bool.false_eq_true, if_false]
+      rw [e1, e2]
+      exact ⟨by rw [h1]; simp; omega, h2⟩
+    | context o ln bs =>
+      simp only [feed, step, show (Det.quit == Det.convert) = false by decide, Bool.false_and,
+        Bool.false_eq_true, if_false]
+      obtain ⟨h1, h2⟩ := ih { st with out := st.out ++ [.contextLine ln bs] }
+      have e1 : (Ev.context o ln bs :: pre).filter Ev.isMatched = pre.filter Ev.isMatched := by
+        simp [List.filter_cons, Ev.isMatched]
+      have e2 : (Ev.context o ln bs :: pre).filter Ev.isBinaryData = pre.filter Ev.isBinaryData := by
+        simp [List.filter_cons, Ev.isBinaryData]
+      rw [e1, e2]
+      exact ⟨h1, h2⟩
+    | ctxBreak =>
+      simp only [feed, step]
+      obtain ⟨h1, h2⟩ := ih { st with out := st.out ++ [.sep] }
+      have e1 : (Ev.ctxBreak :: pre).filter Ev.isMatched = pre.filter Ev.isMatched := by
+        simp [List.filter_cons, Ev.isMatched]
+      have e2 : (Ev.ctxBreak :: pre).filter Ev.isBinaryData = pre.filter Ev.isBinaryData := by
+        simp [List.filter_cons, Ev.isBinaryData]
+      rw [e1, e2]
+      exact ⟨h1, h2⟩
+    | binaryData o =>
+      simp only [feed, step]
+      obtain ⟨h1, h2⟩ := ih { st with binOff := some o }
+      have e1 : (Ev.binaryData o :: pre).filter Ev.isMatched = pre.filter Ev.isMatched := by
+        simp [List.filter_cons, Ev.isMatched]
+      refine ⟨by rw [e1]; exact h1, ?_⟩
+      rw [h2]
+      have e2 : (Ev.binaryData o :: pre).filter Ev.isBinaryData = Ev.binaryData o :: pre.filter Ev.isBinaryData := by
+        simp [List.filter_cons, Ev.isBinaryData]
+      rw [e2]
+      cases hq : pre.filter Ev.isBinaryData with
+      | nil => simp
+      | cons x xs => simp [List.getLast?_cons_cons]
+
+/-- **Partial (`Quit`)**: if every stream in which a line was delivered before the detection also
+delivered a matching line (true without `--passthru`, unless the very first matching line holds
+the NUL), the output of a traversed binary file is empty or ends with the warning. -/
+theorem C14_partial_quit (pre : List Ev) (off : Nat) (hg : MatchIfLine pre = true) :
+    WarnIfPrinted pre off := by
+  unfold WarnIfPrinted
+  rw [implicit_dropped_or_cut]
+  intro ⟨it, hit, hline⟩
+  have hmc := (feed_quit_matchCount pre {}).1
+  -- a line item comes from a matched or context event of `pre`
+  have hsome : pre.any (fun e => e.isMatched || e.isContext) = true := by
+    simp only [List.mem_append, List.mem_filterMap] at hit
+    cases hit with
+    | inl h =>
+      obtain ⟨e, he, hte⟩ := h
+      rw [List.any_eq_true]
+      refine ⟨e, he, ?_⟩
+      cases e <;> simp [toItem] at hte <;> subst hte <;> simp_all [Item.isLine, Ev.isMatched, Ev.isContext]
+    | inr h =>
+      split at h
+      · simp at h
+      · simp only [List.mem_singleton] at h
+        subst h
+        simp [Item.isLine] at hline
+  unfold MatchIfLine at hg
+  rw [hsome] at hg
+  simp only [Bool.not_true, Bool.false_or] at hg
+  rw [List.any_eq_true] at hg
+  obtain ⟨e, he, hem⟩ := hg
+  have hpos : (pre.filter Ev.isMatched).length > 0 := by
+    apply List.length_pos_of_mem (a := e)
+    rw [List.mem_filter]
+    exact ⟨he, hem⟩
+  have hne : (feed .quit {} pre).matchCount ≠ 0 := by
+    rw [hmc]
+    show 0 + _ ≠ 0
+    omega
+  simp [hne]
+
 /-- `-c` / `-l` in `Quit` mode: the official match count of a file with binary data is squashed
 (the file counts as not matching); in `Convert` mode it is kept. -/
 theorem summary_squash (o n : Nat) :
